@@ -476,6 +476,11 @@ func (c *Conn) Parse(data []byte) (retErr error) {
 			switch opcode {
 			case FragmentMessage, TextMessage, BinaryMessage:
 				if c.msgType == 0 {
+					if opcode == FragmentMessage {
+						// a continuation frame without a message to continue.
+						err = ErrInvalidFragmentMessage
+						return
+					}
 					c.msgType = opcode
 					c.compress = compress
 				}
